@@ -79,16 +79,26 @@ Theorem C17_release_idempotent :
 Proof. split; [exact release_clears|exact release_again]. Qed.
 Print Assumptions C17_release_idempotent.
 
-(* Linearizability of the one call whose result depends on shared mutable
-   state: in every interleaving, an Eval that has made its first read of the
-   tables finishes with REval of the garbling of the handle it was called on
-   (first and last read agree and are the handle's own garbling) — the result
-   of the same call run alone ([solo]: REval of the handle's seed).  Garble's
-   result is determined by its own seed and Compute touches no shared state
-   (in the model by construction; on the implementation by the comparison of
-   every call with the call run alone, harness c17).  PARTIAL: the equality of
-   a goroutine's whole result list with [solo] of its program is not proved
-   as one statement. *)
+(* Linearizability, as one statement.  For every set of programs, every
+   schedule (interleaving, resolution of every pool.Get(), pool drops), every
+   prefix and every goroutine t: the results t has obtained so far, followed
+   by the results the rest of its program yields when run ALONE from t's own
+   handles, are exactly the results of t's whole program run alone
+   ([solo_run]: Garble returns the garbling of its own seed, Eval of an
+   unreleased handle that handle's garbling, Eval of a released handle an
+   error, Compute the value of its input) — nothing another goroutine does
+   changes any result; and when t's program is finished its result list IS
+   that of the program run alone. *)
+Theorem C17_linearizable :
+  forall (progs : list (list op)) (sched : list sitem) (t : nat),
+    let th := s_thr (run_from (init progs) sched) t in
+    rev (t_res th) ++ solo (t_prog th) (t_nh th) (abs th) = solo_run (nth t progs []) /\
+    (t_prog th = [] -> rev (t_res th) = solo_run (nth t progs [])).
+Proof. exact linearizable. Qed.
+Print Assumptions C17_linearizable.
+
+(* the step-level fact behind it: an Eval that has made its first read of the
+   tables finishes with the garbling of the handle it was called on *)
 Theorem C17_linearizable_eval :
   forall (progs : list (list op)) (sched : list sitem) (t ch hi v1 : nat) (st' : state),
     let st := run_from (init progs) sched in
